@@ -19,11 +19,11 @@ TECHNIQUE = "shadow timeout table vs the live server under a controlled clock; d
 RULE = ("seeded timelines over 1-4 instances: create with every timeout unit alone and in combinations, every instance-scoped request kind, "
         "keep-alive, metrics, full-metrics, whole-server /save-state (not an access), creation of another instance, stop-instance, clock advances to timeout-eps / exactly timeout / "
         "timeout+eps of a chosen instance; with and without a FileAdapter (expired externalised instances must be restored by the next request "
-        "to them, keep-alive included). distinct_nontrivial = distinct (event kind at expiry boundary, boundary class, adapter) combinations "
+        "to them, keep-alive included). Plus designed timelines: a 5-second instance next to a 1-hour instance expires, is restored by a request and expires again (5 sweep triggers x 2 creation orders x 3 restoring requests). distinct_nontrivial = distinct (event kind at expiry boundary, boundary class, adapter) combinations "
         "in which an instance was within eps of its deadline when a sweep trigger happened.")
 ASSUMPTIONS = ["decided under the substituted clock (datetime.now is the only time source of the instance manager); real time is cross-checked on short timelines only",
                "a direct access to an expired but not yet swept instance is unspecified: the shadow adopts what the server did"]
-REQUIRED = {"whole_server_saves": 10, "events": 2000, "sweep_checks": 1000, "boundary_hits": 100, "expiries_observed": 100, "restores_observed": 20}
+REQUIRED = {"designed_timelines": 20, "whole_server_saves": 10, "events": 2000, "sweep_checks": 1000, "boundary_hits": 100, "expiries_observed": 100, "restores_observed": 20}
 BUDGET_S = {"quick": 110, "thorough": 1500}
 
 UNITS = ["weeks", "days", "hours", "minutes", "seconds", "milliseconds", "microseconds"]
@@ -36,6 +36,11 @@ def gen_cases(tier, seed):
     cases = [dict(kind="clock", seed=seed * 7907 + i, adapter=(i % 3 == 0)) for i in range(n)]
     for i in range(2 if tier == "quick" else 4):
         cases.append(dict(kind="realtime", seed=seed * 13 + i, adapter=bool(i % 2)))
+    # designed timelines: a short-lived instance next to a long-lived one expires, is restored by a request, and expires AGAIN
+    for trigger in ("metrics", "full-metrics", "create", "other-access", "save-state"):
+        for order in ("long-first", "short-first"):
+            for restorer in ("keep-alive", "run-step", "session-results"):
+                cases.append(dict(kind="designed", adapter=True, trigger=trigger, order=order, restorer=restorer, seed=seed))
     return cases
 
 
@@ -355,9 +360,55 @@ def run_realtime_case(case, counters):
         run.close()
 
 
+def run_designed(case, counters):
+    run = Run(case, counters)
+    trace = []
+    try:
+        def step(name, f, *a):
+            trace.append((name,) + tuple(run.all_ids.index(x) if x in run.all_ids else x for x in a if not isinstance(x, dict)))
+            return f(*a)
+        specs = [{"hours": 1}, {"seconds": 5}] if case["order"] == "long-first" else [{"seconds": 5}, {"hours": 1}]
+        for to in specs:
+            w = step("create", run.create, to)
+            if w:
+                return w, trace, run
+        long_id, short_id = (run.all_ids[0], run.all_ids[1]) if case["order"] == "long-first" else (run.all_ids[1], run.all_ids[0])
+        for iid in (long_id, short_id):
+            for kind in ("begin-session", "run-step"):
+                w = step(kind, run.access, iid, kind)
+                if w:
+                    return w, trace, run
+
+        def trigger():
+            t = case["trigger"]
+            if t in ("metrics", "full-metrics"):
+                return step(t, run.metrics, t == "full-metrics")
+            if t == "create":
+                return step("create", run.create, {"hours": 2})
+            if t == "save-state":
+                return step("save-state", run.save_state) or step("metrics", run.metrics, False)
+            return step("keep-alive", run.access, long_id, "keep-alive")
+        for phase in (1, 2):
+            run.clock.advance(seconds=6)           # past the short instance's deadline, far before the long one's
+            trace.append(("advance 6s",))
+            w = trigger()                          # ... so this sweep removes it (the shadow knows it is externalised)
+            if w:
+                return w, trace, run
+            if phase == 1:
+                w = step(case["restorer"], run.access, short_id, case["restorer"])     # restored from its state file, timer restarted
+                if w:
+                    return w, trace, run
+        counters["designed_timelines"] = counters.get("designed_timelines", 0) + 1
+        return None, trace, run
+    finally:
+        run.close()
+
+
 def run_case(case):
     counters = {}
-    if case["kind"] == "clock":
+    if case["kind"] == "designed":
+        w, trace, run = run_designed(case, counters)
+    elif case["kind"] == "clock":
         w, trace, run = run_clock_case(case, counters)
     else:
         w, trace, run = run_realtime_case(case, counters)
